@@ -15,6 +15,9 @@
  *         htab   in:<k>:<v>  rm:<k>  get:<k>         (generic ares_htable_t, hash(k) = k)
  *         buf    ap:<len>:<byte>  co:<len>  tag  untag
  *         arr    il:<v> if:<v> ia:<i>:<v> rf rl ra:<i>
+ *         wire   q:<name>  an:<owner>  ns:<owner>:<target>     (kind wire: the record is built
+ *                without failure; n counts the requests of the ONE ares_dns_write() call; the
+ *                message is parsed back without failure and its names are dumped)
  * output: "<k> R <tok> <tok> ... dump=<..> end=<live blocks after destroy>"
  *         tok = "C<ok>@<cnt>/<live>" for the creation, then per op "<res>@<cnt>/<live>"
  *         (res: 1/0 success of the operation, or the status / value for arr, get), cnt =
@@ -318,6 +321,71 @@ static void run_arr(char *ops)
   }
 }
 
+/* ---------------- DNS writer (name compression bookkeeping) ---------------- */
+static void run_wire(char *ops, long n)
+{
+  ares_dns_record_t *rec = NULL;
+  char              *save = NULL, *op;
+  unsigned char     *buf = NULL;
+  size_t             len = 0;
+  ares_status_t      st;
+  g_failat = 0;
+  if (ares_dns_record_create(&rec, 1, ARES_FLAG_QR, ARES_OPCODE_QUERY, ARES_RCODE_NOERROR) != ARES_SUCCESS) {
+    printf(" BADCASE");
+    return;
+  }
+  for (op = strtok_r(ops, ";", &save); op; op = strtok_r(NULL, ";", &save)) {
+    char           a[300], b[300];
+    ares_dns_rr_t *rr = NULL;
+    if (sscanf(op, "q:%299s", a) == 1) {
+      ares_dns_record_query_add(rec, a, ARES_REC_TYPE_A, ARES_CLASS_IN);
+    } else if (sscanf(op, "an:%299s", a) == 1) {
+      struct in_addr ip;
+      ip.s_addr = htonl(0x01020304);
+      if (ares_dns_record_rr_add(&rr, rec, ARES_SECTION_ANSWER, a, ARES_REC_TYPE_A, ARES_CLASS_IN, 300) == ARES_SUCCESS) {
+        ares_dns_rr_set_addr(rr, ARES_RR_A_ADDR, &ip);
+      }
+    } else if (sscanf(op, "ns:%299[^:]:%299s", a, b) == 2) {
+      if (ares_dns_record_rr_add(&rr, rec, ARES_SECTION_AUTHORITY, a, ARES_REC_TYPE_NS, ARES_CLASS_IN, 300) == ARES_SUCCESS) {
+        ares_dns_rr_set_str(rr, ARES_RR_NS_NSDNAME, b);
+      }
+    }
+  }
+  g_cnt    = 0;
+  g_failat = n;
+  st       = ares_dns_write(rec, &buf, &len);
+  g_failat = 0;
+  TOK("%d", (int)st);
+  printf(" dump=");
+  if (st == ARES_SUCCESS) {
+    ares_dns_record_t *back = NULL;
+    if (ares_dns_parse(buf, len, 0, &back) == ARES_SUCCESS) {
+      size_t      i;
+      const char *qn = NULL;
+      int         first = 1;
+      for (i = 0; i < ares_dns_record_query_cnt(back); i++) {
+        ares_dns_record_query_get(back, i, &qn, NULL, NULL);
+        printf("%s%s", first ? "" : ",", qn);
+        first = 0;
+      }
+      for (i = 0; i < ares_dns_record_rr_cnt(back, ARES_SECTION_ANSWER); i++) {
+        printf("%s%s", first ? "" : ",", ares_dns_rr_get_name(ares_dns_record_rr_get(back, ARES_SECTION_ANSWER, i)));
+        first = 0;
+      }
+      for (i = 0; i < ares_dns_record_rr_cnt(back, ARES_SECTION_AUTHORITY); i++) {
+        ares_dns_rr_t *rr = ares_dns_record_rr_get(back, ARES_SECTION_AUTHORITY, i);
+        printf("%s%s>%s", first ? "" : ",", ares_dns_rr_get_name(rr), ares_dns_rr_get_str(rr, ARES_RR_NS_NSDNAME));
+        first = 0;
+      }
+      ares_dns_record_destroy(back);
+    } else {
+      printf("UNPARSABLE");
+    }
+  }
+  ares_free(buf);
+  ares_dns_record_destroy(rec);
+}
+
 static ares_rand_state *g_rs;
 
 static void run_case(long k, char *line)
@@ -357,6 +425,8 @@ static void run_case(long k, char *line)
     run_buf(bar + 1);
   } else if (strcmp(kind, "arr") == 0) {
     run_arr(bar + 1);
+  } else if (strcmp(kind, "wire") == 0) {
+    run_wire(bar + 1, n);
   } else {
     printf(" BADKIND");
   }
